@@ -191,8 +191,21 @@ inline void after_c02(Env& e)
 {
   if (vsbx_ev.outside_ptr_to_sandbox) { violation("application-pointer-translated-into-sandbox", mon::fmt("the backend was asked to translate %p, which is outside the sandbox", (void*)vsbx_ev.last_outside_ptr)); return; }
   if (guest_calls && cur_tag[0] == 'r') { violation("guest-reached-with-forbidden-argument", "the sandbox function was called"); return; }
+  // no application address may sit verbatim in sandbox memory either (a raw copy never asks the backend)
+  {
+    const unsigned char* m = reinterpret_cast<const unsigned char*>(Wd::base(e.sb));
+    size_t n = Wd::size(e.sb);
+    for (int k = 0; k < 4; k++) {
+      uintptr_t a = reinterpret_cast<uintptr_t>(&canary_target[k]);
+      const void* hit = memmem(m, n, &a, sizeof a);
+      if (hit) {
+        violation("application-address-found-verbatim-in-sandbox-memory", mon::fmt("&canary_target[%d] = %p is stored at sandbox offset %zu", k, (void*)a, (size_t)(static_cast<const unsigned char*>(hit) - m)));
+        memset(const_cast<void*>(hit), 0, sizeof a);
+        return;
+      }
+    }
+  }
   n_c02_clean++;
-  (void)e;
 }
 
 template<typename T> inline T takes(T x) { return x; }
